@@ -72,7 +72,8 @@ class C08(object):
                          'zone_queried_during_construction.cases', 'parameter_chain_across_sectors.cases', 'two_markets_household_buyer_nondefault_codes.cases',
                          'profitable_firm_sharing_its_market_with_an_importer.cases',
                          'households_sharing_one_portfolio_rule_object.cases',
-                         'ownerless_firm_next_to_a_region_with_capitalists.cases')
+                         'ownerless_firm_next_to_a_region_with_capitalists.cases',
+                         'deposit_holder_without_a_money_demand_of_its_own.cases')
 
     def n_cases(self, tier):
         return 12 if tier == 'quick' else 30 + 270
@@ -111,12 +112,22 @@ class C08(object):
             sp3 = M.gen_spec(rng, n_zones=1, allow_fed=False, maxtime=rng.randint(3, 4))
             if M.force_household_and_capitalists_sharing_a_portfolio_rule(rng, sp3):
                 spec = sp3
+        saver = False
+        if idx % 6 == 3:
+            # a sector that holds deposits and leaves its money demand to the money market's default, in a zone with both asset
+            # markets (which of the two markets is declared first must not matter)
+            sp5 = M.gen_spec(rng, n_zones=1, allow_fed=False, maxtime=rng.randint(3, 4))
+            if M.force_share_portfolio_with_own_lag(rng, sp5) is not False:
+                c5 = [c_ for c_ in sp5['zones'][0]['countries'] if c_['role'] != 'central'][0]
+                c5['saver'] = {'share': rng.choice([0.3, 0.25]), 'F0': float(rng.randint(20, 60))}
+                spec = sp5
+                saver = True
         codes = None
-        if idx % 3 == 0:
+        if idx % 3 == 0 and not saver:
             # two markets with prefix-related codes in which government AND household buy, a non-default labour code
             import random as _r2
             codes = M.force_two_markets_with_household_buyer(_r2.Random('two_markets:%d:%d' % (idx, rng.getrandbits(20))), spec)
-        return {'kind': 'orders', 'codes': codes, 'spec': spec, 'ownerless_firm_next_to_a_region_with_capitalists': ownerless, 'order_seeds': [rng.getrandbits(30) for _ in range(n)],
+        return {'kind': 'orders', 'codes': codes, 'spec': spec, 'deposit_holder_without_a_money_demand_of_its_own': saver, 'ownerless_firm_next_to_a_region_with_capitalists': ownerless, 'order_seeds': [rng.getrandbits(30) for _ in range(n)],
                 'ext_first': [rng.random() < 0.5 for _ in range(n)],
                 # the public zone API (GetSectors / LookupSector) is used while the sectors are being declared
                 'query_zone': idx % 2 == 0}
@@ -136,6 +147,8 @@ class C08(object):
         if any(c.get('cap') and c['firm']['form'] == 'fixed' and any(i['market'] == c['key'] for i in spec['imports'])
                for z in spec['zones'] for c in z['countries'] if c['role'] != 'central'):
             rec.count('profitable_firm_sharing_its_market_with_an_importer.cases')
+        if case.get('deposit_holder_without_a_money_demand_of_its_own'):
+            rec.count('deposit_holder_without_a_money_demand_of_its_own.cases')
         if case.get('ownerless_firm_next_to_a_region_with_capitalists'):
             rec.count('ownerless_firm_next_to_a_region_with_capitalists.cases')
         base = M.build(spec, query_zone=qz, codes=codes)
